@@ -17,6 +17,9 @@ type Desc struct {
 	K        int        `json:"k"`    // loss after byte K of the exchange (kind eof/err)
 	J        int        `json:"j"`    // the J-th write of the operation fails (kind write)
 	Idle     bool       `json:"idle"` // the loss is noticed by the reader before the operation starts
+	// Unsol: while idle the device prints unsolicited output ending in a prompt redraw (a syslog
+	// line) just before the connection is lost.
+	Unsol bool `json:"unsolicited,omitempty"`
 	Seg      devsim.Seg `json:"seg"`
 	Base     int        `json:"base"`
 	S        int        `json:"s"`
@@ -95,11 +98,22 @@ func run(c mon.Case) mon.Result {
 		if gen != d.Base {
 			return mon.Result{Verdict: mon.Inconclusive, Detail: fmt.Sprintf("set-up generated %d bytes, dry run %d", gen, d.Base)}
 		}
+		at := d.Base + d.K
+		if d.Unsol && s.CLI != nil {
+			s.Conn.Do(func() {
+				s.Conn.Emit([]byte("\r\n%SYS-5-CONFIG_I: Configured from console by admin\r\n" + s.CLI.Prompts[s.CLI.Mode]))
+			})
+			if !s.Quiesce(5 * time.Second) {
+				return mon.Result{Verdict: mon.Inconclusive, Detail: "unsolicited output not drained"}
+			}
+			time.Sleep(3 * time.Millisecond) // let the reader enqueue it
+			s.Conn.Do(func() { at = s.Conn.Generated() })
+		}
 		switch d.Kind {
 		case "eof":
-			s.Conn.SetFault(devsim.FaultEOF, d.Base+d.K)
+			s.Conn.SetFault(devsim.FaultEOF, at)
 		case "err":
-			s.Conn.SetFault(devsim.FaultErr, d.Base+d.K)
+			s.Conn.SetFault(devsim.FaultErr, at)
 		case "write":
 			s.Conn.SetWriteErrAfter(d.J)
 		}
@@ -116,7 +130,7 @@ func run(c mon.Case) mon.Result {
 		}
 	}
 	viol := func(key, f string, a ...interface{}) mon.Result {
-		return mon.Result{Verdict: mon.Violated, Key: key, Detail: fmt.Sprintf("%s %s k=%d j=%d idle=%v (|S|=%d): ", d.Scenario, d.Kind, d.K, d.J, d.Idle, d.S) + fmt.Sprintf(f, a...),
+		return mon.Result{Verdict: mon.Violated, Key: key, Detail: fmt.Sprintf("%s %s k=%d j=%d idle=%v unsolicited=%v (|S|=%d): ", d.Scenario, d.Kind, d.K, d.J, d.Idle, d.Unsol, d.S) + fmt.Sprintf(f, a...),
 			Events: tail(s.Conn.Log(), 40), NonTrivial: true}
 	}
 	t0 := time.Now()
@@ -138,6 +152,9 @@ func run(c mon.Case) mon.Result {
 	lossReached := d.Kind == "write" || s.Conn.SawReadErr()
 	if r.err == nil {
 		obs["op_succeeded"]++
+		if d.Idle {
+			return viol("c06/success-after-loss:"+d.Scenario, "the connection was lost (and the reader had noticed) before the operation started, yet it reported success with %q", r.res)
+		}
 		if r.res != d.Want {
 			return viol("c06/truncated-success:"+d.Scenario, "operation reported success with a result that differs from the complete one\n got: %q\nwant: %q", r.res, d.Want)
 		}
@@ -241,7 +258,7 @@ func gen(tier string, seed int64) []mon.Case {
 	var cs []mon.Case
 	n := 0
 	add := func(d Desc) {
-		cs = append(cs, mon.MkCase(fmt.Sprintf("c06/%05d-%s-%s-k%d-j%d", n, d.Scenario, d.Kind, d.K, d.J), d))
+		cs = append(cs, mon.MkCase(fmt.Sprintf("c06/%05d-%s-%s-k%d-j%d%s", n, d.Scenario, d.Kind, d.K, d.J, map[bool]string{true: "-unsol"}[d.Unsol]), d))
 		n++
 	}
 	segs := []devsim.Seg{{Mode: "fixed", Size: 7, Seed: seed}, {Mode: "mix", Size: 16, Seed: seed + 1, Delay: "gosched"}}
@@ -274,6 +291,9 @@ func gen(tier string, seed int64) []mon.Case {
 			if sc.Pre != nil {
 				for _, kind := range []string{"eof", "err"} {
 					add(Desc{Scenario: sc.Name, Kind: kind, K: 0, Idle: true, Seg: seg, Base: st.Base, S: st.S, Want: st.Want})
+					if sc.Driver != "netconf" {
+						add(Desc{Scenario: sc.Name, Kind: kind, K: 0, Idle: true, Unsol: true, Seg: seg, Base: st.Base, S: st.S, Want: st.Want})
+					}
 				}
 			}
 		}
